@@ -81,10 +81,11 @@ template <class P> struct content {
             if (mode == 0) { wd.lo[c] = a; wd.hi[c] = b; }
             else {
                 long span = r.range(0, (int)(3 * bw + 2));
+                if (span > b - a) span = b - a;
                 long base = mode == 1 ? a : mode == 2 ? b - span : a + (long)r.below((uint64_t)(b - a - span + 1));
                 wd.lo[c] = base; wd.hi[c] = base + span;
-                if (cls && mode == 2) { wd.lo[c] = -span - 1; wd.hi[c] = -1; }   // just below zero (never a positive-only window)
-                if (cls && mode == 3) { wd.lo[c] = -r.range(1, (int)(2 * bw + 1)); wd.hi[c] = r.range(0, (int)(2 * bw)); }   // straddle zero
+                if (cls && mode == 2) { wd.lo[c] = std::max<long>(cmin, -span - 1); wd.hi[c] = -1; }   // just below zero (never a positive-only window)
+                if (cls && mode == 3) { wd.lo[c] = std::max<long>(cmin, -r.range(1, (int)(2 * bw + 1))); wd.hi[c] = std::min<long>(cmax, r.range(0, (int)(2 * bw))); }   // straddle zero
             }
         }
         return wd;
@@ -105,10 +106,28 @@ template <class P> struct content {
             // negative class: the first pixel and about half of the others hold, in every channel, a negative value
             // that is not a multiple of the bin width (truncation toward zero and floor then give different bins)
             if (wd.cls && ((x == 0 && y == 0) || force[(size_t)y * w + x]))
-                val = -((long)r.range(0, 6) * wd.bw + (wd.bw > 1 ? (long)r.range(1, (int)wd.bw - 1) : 1));
+            {
+                long rem = wd.bw > 1 ? (long)r.range(1, (int)std::min<long>(wd.bw - 1, -cmin)) : 1;
+                long qmax = std::min<long>(6, (-cmin - rem) / wd.bw);
+                val = -((long)r.range(0, (int)qmax) * wd.bw + rem);
+            }
             if (val < 0 && val % wd.bw != 0) ++neg_nonmultiple;
             vals[((size_t)y * w + x) * N + c] = val;
             v(x, y)[c] = (ch_t)val;
+        }
+    }
+    // an n x 1 view holding exactly the given channel tuples (value sweeps)
+    void make_values(std::vector<karr> const& v, long bw) {
+        w = (int)v.size(); h = 1; ox = 1; oy = 1;
+        img.recreate(w + 2, h + 2);
+        auto full = gil::view(img);
+        for (int y = 0; y < h + 2; ++y) for (int x = 0; x < w + 2; ++x) for (int c = 0; c < N; ++c) full(x, y)[c] = (ch_t)(x * 31 + y * 7 + c);
+        vals.assign((size_t)w * N, 0); neg_nonmultiple = 0;
+        auto vw = view();
+        for (int x = 0; x < w; ++x) for (int c = 0; c < N; ++c) {
+            long val = v[x][c];
+            if (val < 0 && val % bw != 0) ++neg_nonmultiple;
+            vals[(size_t)x * N + c] = val; vw(x, 0)[c] = (ch_t)val;
         }
     }
     uint64_t hash() const { return vh::hash_bytes(vals.data(), vals.size() * sizeof(long), vh::mix(w, h)); }
@@ -499,6 +518,61 @@ template <class P> static void std_cases() {
     }
 }
 
+// ---- bin-width sweep: every channel value (8 bit) / every bin boundary (16 bit) x the whole range of widths --------
+// The bin of a value is value / width (C++ integer division); an implementation that goes through floating point,
+// shifts, reciprocal multiplication ... differs only for particular (value, width) pairs near bin boundaries.
+static std::vector<long> sweep_widths(bool sixteen) {
+    std::vector<long> v;
+    if (!sixteen || vh::thorough()) for (long b = 1; b <= 256; ++b) v.push_back(b);
+    else {
+        for (long b = 1; b <= 48; ++b) v.push_back(b);
+        for (long b = 49; b <= 256; ++b) { bool prime = true; for (long d = 2; d * d <= b; ++d) if (b % d == 0) prime = false; if (prime || b % 41 == 0 || b % 25 == 0 || (b & (b - 1)) == 0 || b == 255) v.push_back(b); }
+    }
+    if (sixteen) {
+        const long big[] = {257, 1000, 4096, 10000, 32767, 32768, 65535};
+        for (long b : big) v.push_back(b);
+        if (vh::thorough()) { vh::rng r(vh::mix(vh::seed(), 0xB1D)); for (int i = 0; i < 300; ++i) v.push_back(r.range(258, 65535)); }
+    }
+    return v;
+}
+template <class P> static void binning_cases() {
+    typedef typename gil::channel_type<P>::type ch_t;
+    const int N = gil::num_channels<P>::value;
+    typedef typename full_hist<N>::type H;
+    const long cmin = (long)std::numeric_limits<ch_t>::min(), cmax = (long)std::numeric_limits<ch_t>::max();
+    const bool sixteen = sizeof(ch_t) == 2, is_signed = std::numeric_limits<ch_t>::is_signed;
+    const long range = cmax - cmin + 1;
+    for (long bw : sweep_widths(sixteen)) {
+        if (!vh::begin_case(std::string("binning.") + PT<P>::name(), vh::cat("bw=", bw))) continue;
+        vh::rng r = vh::case_rng();
+        // channel-0 values: all of them (8 bit), or every bin boundary k*bw-1, k*bw, k*bw+1 on both sides of zero (16 bit)
+        std::vector<long> v0;
+        if (!sixteen) for (long x = cmin; x <= cmax; ++x) v0.push_back(x);
+        else {
+            for (long k = cmin / bw - 1; k <= cmax / bw + 1; ++k) for (long d = -1; d <= 1; ++d) { long x = k * bw + d; if (x >= cmin && x <= cmax) v0.push_back(x); }
+            v0.push_back(cmin); v0.push_back(cmax); v0.push_back(0);
+            std::sort(v0.begin(), v0.end()); v0.erase(std::unique(v0.begin(), v0.end()), v0.end());
+        }
+        // the other channels run through the same values in another order
+        std::vector<karr> px(v0.size());
+        for (size_t i = 0; i < v0.size(); ++i) {
+            px[i] = karr{{v0[i], 0, 0, 0}};
+            for (int c = 1; c < N; ++c) px[i][c] = v0[(i * (c == 1 ? 37 : 101) + 11 * c) % v0.size()];
+        }
+        content<P> prior, c;
+        auto wd = content<P>::make_windows(r, is_signed ? 1 : 0, bw);
+        prior.make(3, 2, r, wd);
+        c.make_values(px, bw);
+        for (int vv = 0; vv < 16; ++vv) {
+            variant vr{bool(vv & 1), bool(vv & 2), bool(vv & 4), bool(vv & 8)};
+            fill_experiment<P, H>(prior, c, bw, is_signed ? 1 : 0, vr, r, "full", (vv == 0 || vv == 6) && px.size() <= 1024);   // post-operations are quadratic in the bins
+        }
+        vh::obs(vh::cat("binning.", sixteen ? "16bit" : "8bit", is_signed ? ".signed" : ".unsigned", bw >= 41 ? ".bw>=41" : ".bw<41"));
+        (void)range;
+        if (bw == 41) vh::sample(vh::cat("binning sweep: ", PT<P>::name(), " bin_width=41, ", px.size(), " pixels holding ", sixteen ? "every bin boundary k*41-1,k*41,k*41+1" : "every channel value", ", 16 mask/limit/accumulate/dense variants"));
+    }
+}
+
 int main(int argc, char** argv) {
     vh::init(argc, argv);
 #if C19_PART == 0
@@ -520,6 +594,14 @@ int main(int argc, char** argv) {
     std_cases<gil::rgb8_pixel_t>();
     std_cases<gil::gray16_pixel_t>();
     std_cases<gil::rgb16_pixel_t>();
+#elif C19_PART == 5
+    binning_cases<gil::gray8_pixel_t>();
+    binning_cases<gil::gray8s_pixel_t>();
+    binning_cases<gil::rgb8_pixel_t>();
+    binning_cases<gil::rgb8s_pixel_t>();
+#elif C19_PART == 6
+    binning_cases<gil::gray16_pixel_t>();
+    binning_cases<gil::gray16s_pixel_t>();
 #endif
     return vh::finish();
 }
